@@ -4,7 +4,7 @@ import clientlib
 
 PID = "C14"
 FIELDS = ["trusted"]
-CHAINS = ["tsRotateBack", "snRotate", "tsOverlap", "tgRotate", "noChange"]
+CHAINS = ["tsRotateBack", "snRotate", "tsOverlap", "tsTakesSnKey", "tgRotate", "noChange"]
 ASSUME = ["TLC; versions are compared, not counted: model versions 1..3 are realised as 1, 2^40 and 2^63-1 (attacker-inflated) in half of the replays",
           "F2 (trusted root not persisted): a cycle that starts from a shipped root other than the root trusted last is reported as KNOWN-FINDING when it stays locked"]
 
@@ -18,9 +18,9 @@ def nontrivial(b):
 
 def run(tier, seed):
     cyc = 3 if tier == "thorough" else 2
-    chains = CHAINS if tier == "thorough" else ["tsRotateBack", "snRotate", "tsOverlap"]   # tsOverlap: {1} -> {1,2} -> {2}, old key kept at the first hop
+    chains = CHAINS if tier == "thorough" else ["tsRotateBack", "snRotate", "tsOverlap", "tsTakesSnKey"]   # tsOverlap: {1} -> {1,2} -> {2}, old key kept at the first hop; tsTakesSnKey: {1} -> {1,3} where 3 is the snapshot key
     mcs = [("MC_Rollback", "MC_Rollback_check.cfg", {"ChainId": json.dumps(c), "ShipMode": json.dumps("any"),
-            "MaxCycles": cyc if c != "tsOverlap" else 2, "V": 3}, f"c14-{c}") for c in chains]
+            "MaxCycles": cyc if c not in ("tsOverlap", "tsTakesSnKey") else 2, "V": 3}, f"c14-{c}") for c in chains]
     gens = []
     for c in chains:
         big = {"vmap": [0, 1, 2 ** 40, 2 ** 63 - 1]}
